@@ -121,6 +121,27 @@ class Evaluator:
         self.call_ctx: dict = {}  # call term -> [tuple of `with` context terms active at each evaluation of it]
         self.fuse_treemaps = True  # consecutive leafwise maps are one map (rules that read a staged computation stage by stage switch this off)
         self.inline_private_static = True  # Cls._helper(...) private static helpers are read at the call site (rules name the ones they want opaque)
+        self.inline_tag_helpers = False  # Diff.<helper>(tree, T) is read as Diff.no_change / unknown_change(tree); the rules that judge those two methods read the helper's body instead
+
+    def tag_helpers(self) -> dict:
+        """static methods h of Diff, other than the API, with `h(tree, T)` == tree_diff(tree_primal(tree), tree_map(lambda _: T, tree_primal(tree))):
+        the parametrised constant tagging (Diff.no_change is h(tree, NoChange)).  Decided on the evaluated body, once per program."""
+        prog = self.prog
+        if getattr(prog, "_tag_helpers", None) is None:
+            prog._tag_helpers = {}
+            cis = prog.class_index.get("Diff")
+            for ci in (cis or [])[:1]:
+                for name, fn in ci.methods.items():
+                    if name in _TREE_TAGS or name == "tree_diff" or not _is_static(fn) or len(fn.args.args) != 2 or fn.args.vararg or fn.args.kwarg:
+                        continue
+                    try:
+                        r = Evaluator(prog).eval_fn(fn, ci.module, ci)
+                    except Exception:
+                        continue
+                    x, T = P(fn.args.args[0].arg), P(fn.args.args[1].arg)
+                    if const_tagging(r.ret, x, lambda g: g == T):
+                        prog._tag_helpers[name] = fn
+        return prog._tag_helpers
 
     def call_aliases(self) -> set:
         """method names m such that some class defines `__call__(self, *a): return self.m(*a)` and no other class defines m:
@@ -312,6 +333,14 @@ def _iterable(it):
         xs = it[2][-1][2][0]
         start = it[2][0] if len(it[2]) == 2 else C(0)
         return ("positions", xs, start)
+    # counting positions from the end: for k in range(1, len(xs) + 1) (xs[len(xs) - k] / xs[-k]) and for i in range(len(xs) - 1, -1, -1) (xs[i])
+    if is_t(it, "call") and it[1] == G("range") and not it[3]:
+        a_ = it[2]
+        ln = lambda t: t[2][0] if is_t(t, "call") and t[1] == G("len") and len(t[2]) == 1 and not t[3] else None
+        if len(a_) == 2 and a_[0] == C(1) and is_t(a_[1], "bin") and a_[1][1] == "+" and a_[1][3] == C(1) and ln(a_[1][2]) is not None:
+            return ("rpositions", ln(a_[1][2]), "count")
+        if len(a_) == 3 and a_[1] == C(-1) and a_[2] == C(-1) and is_t(a_[0], "bin") and a_[0][1] == "-" and a_[0][3] == C(1) and ln(a_[0][2]) is not None:
+            return ("rpositions", ln(a_[0][2]), "index")
     # xs[::-1] is reversed(xs)
     if is_t(it, "index") and it[2] == ("sliceobj", C(None), C(None), C(-1)):
         return ("reversed", _iterable(it[1]))
@@ -469,7 +498,10 @@ def mk_phi(test, a, b):
     if is_t(test, "cmp") and test[1] == "is not":
         return mk_phi(("cmp", "is", test[2], test[3]), b, a)
     if is_t(a, "tuple") and is_t(b, "tuple") and len(a[1]) == len(b[1]) and not _has_star(a) and not _has_star(b):
-        return mk_tuple(mk_phi(test, x, y) for x, y in zip(a[1], b[1]))
+        m_ = mk_tuple(mk_phi(test, x, y) for x, y in zip(a[1], b[1]))
+        if a in _NT_CLASS and _NT_CLASS.get(b) == _NT_CLASS[a]:
+            _NT_CLASS[m_] = _NT_CLASS[a]  # the join of two values of one NamedTuple class is a value of that class
+        return m_
     # (True if c else False) is c; (False if c else True) is not c
     if a == C(True) and b == C(False):
         return test
@@ -528,7 +560,21 @@ def resolve(t, test, pol):
     return t
 
 
+_NT_CLASS: dict = {}  # tuple term built by a NamedTuple constructor -> (class, fields): `.field` / methods of that very value are read through
+
+
 _TREE_TAGS = ("tree_primal", "tree_tangent", "no_change", "unknown_change")
+
+
+def const_tagging(t, x, is_tang) -> bool:
+    """t pairs every leaf of tree_primal(x) with one constant tangent: tree_diff(primal, tree_map(lambda _: T, primal)) or tree_map(lambda p: Diff(p, T), primal)"""
+    def is_prim(p):
+        return is_t(p, "call") and is_t(p[1], "attr") and p[1][2] == "tree_primal" and is_t(p[1][1], "global") and p[1][1][1].split(".")[-1] == "Diff" and p[2] == (x,) and not p[3]
+    if is_t(t, "call") and is_t(t[1], "attr") and t[1][2] == "tree_diff" and len(t[2]) == 2 and not t[3] and is_prim(t[2][0]) and is_t(t[2][1], "treemap") and t[2][1][2] == (t[2][0],) and is_tang(t[2][1][1]):
+        return True
+    if is_t(t, "treemap") and len(t[2]) == 1 and is_prim(t[2][0]) and is_t(t[1], "ctor") and t[1][1] == "Diff" and len(t[1][2]) == 2 and t[1][2][0] == ("leaf", t[2][0]) and is_tang(t[1][2][1]):
+        return True
+    return False
 
 
 def _is_tree_tag(t):
@@ -629,6 +675,8 @@ def mk_elem(it):
         # the running index: start + (position within xs[start:]); for start 0 the position itself
         base_ = it[1] if it[2] == C(0) else ("index", it[1], ("sliceobj", it[2], C(None), C(None)))
         return ("enumidx", base_) if it[2] == C(0) else ("bin", "+", it[2], ("enumidx", base_))
+    if is_t(it, "rpositions"):
+        return ("r" + it[2], it[1])  # the running count from the end (1-based) / the running index going down
     if is_t(it, "items"):
         return mk_tuple((("elem", it[1]), ("index", it[1], ("elem", it[1]))))
     if is_t(it, "values"):
@@ -645,6 +693,8 @@ def mk_elem(it):
 def mk_attr(ev: Evaluator, base, name):
     if name in ev.namedtuples()[1] and base != P("self") and not is_t(base, "global") and not is_t(base, "ctor"):
         return mk_proj(base, ev.namedtuples()[1][name])  # x.field of a NamedTuple is x[index]
+    if is_t(base, "tuple") and base in _NT_CLASS and name in _NT_CLASS[base][1]:
+        return mk_proj(base, _NT_CLASS[base][1].index(name))
     if is_t(base, "ctor"):
         cis = ev.prog.class_index.get(base[1].split(":")[-1], [])
         for ci in cis:
@@ -1034,6 +1084,8 @@ class _Ctx:
         e1 = self.block(st.body, body_env, conds + ((("iter", it), True),))
         if e1 is None:
             return env
+        if is_t(it, "rpositions") and not any(contains(v, mk_elem(it)) for k, v in e1.items() if k != "__effects__" and k in env and env.get(k) != v):
+            it = ("reversed", it[1])  # the counter is used only to fetch the element: the loop ranges over reversed(xs)
         out = dict(env)
         for k, v in e1.items():
             if k in ("__effects__",):
@@ -1303,6 +1355,9 @@ class _Ctx:
             return ("elem", base)
         if is_t(ix, "bin") and ix[1] == "+" and is_t(ix[3], "enumidx") and ix[3][1] == ("index", base, ("sliceobj", ix[2], C(None), C(None))):
             return ("elem", ix[3][1])
+        # xs[len(xs) - k] / xs[-k] with k counting 1..len(xs), xs[i] with i running len(xs)-1 .. 0: the element of reversed(xs)
+        if ix == ("rindex", base) or ix == ("un", "-", ("rcount", base)) or ix == ("bin", "-", ("call", G("len"), (base,), ()), ("rcount", base)):
+            return ("elem", ("reversed", base))
         return ("index", base, ix)
 
     def comp_iter(self, gens, cenv):
@@ -1591,8 +1646,10 @@ class _Ctx:
                     cur[k] = v
             if res.env.get("__effects__"):
                 cur["__effects__"] = cur.get("__effects__", []) + [e for e in res.env["__effects__"] if e not in cur.get("__effects__", [])]
-        elif cur is not None and isinstance(node, (ast.FunctionDef, ast.Lambda)) and clo.env and res.env.get("__effects__"):
-            # a local function shares the caller's mutable objects: keep its effect calls visible
+        elif cur is not None and isinstance(node, (ast.FunctionDef, ast.Lambda)) and res.env.get("__effects__") and (
+                clo.env or (self.cls is not None and clo.cls is self.cls and node.name.startswith("_") and not node.name.startswith("__") and _is_static(node))):
+            # a local function shares the caller's mutable objects: keep its effect calls visible; so does a private static stage of the same class
+            # (it works on the objects it is handed, or on the one it creates and hands back)
             cur["__effects__"] = cur.get("__effects__", []) + [e for e in res.env["__effects__"] if e not in cur.get("__effects__", [])]
         # propagate raise / assert facts upward (rules sometimes need them)
         if hasattr(self, "res"):
@@ -1619,11 +1676,16 @@ class _Ctx:
                 if r is not None:
                     return r
         # repo class -> constructor
+        if short in ev.namedtuples()[0] and (name.startswith("genjax") or "." not in name) and "**" not in kwargs and len(args) == 1 and is_t(args[0], "star") and not kwargs:
+            # NT(*x) succeeds only for len(x) == number of fields: it is then (x[0], .., x[n-1])
+            args = [mk_proj(args[0][1], i_) for i_ in range(len(ev.namedtuples()[0][short]))]
         if short in ev.namedtuples()[0] and (name.startswith("genjax") or "." not in name) and "**" not in kwargs and not any(is_t(x, "star") for x in args):
             flds_nt = ev.namedtuples()[0][short]
             vals = list(args) + [kwargs[f_] for f_ in flds_nt[len(args):] if f_ in kwargs]
             if len(vals) == len(flds_nt):
-                return mk_tuple(vals)  # a NamedTuple is the tuple of its fields
+                tup_ = mk_tuple(vals)  # a NamedTuple is the tuple of its fields
+                _NT_CLASS[tup_] = (short, tuple(flds_nt))  # remembered so that `.field` on this very tuple is its projection even when the field name is not unique
+                return tup_
         if short in ev.prog.class_index and (name.startswith("genjax") or "." not in name):
             # Cls(a, field=b) is Cls(a, b): keywords naming the next dataclass fields become positional
             cis_ = ev.prog.class_index[short]
@@ -1724,6 +1786,14 @@ class _Ctx:
                     r = self.inline(clo, (args if is_static else [obj] + list(args)), kwargs)
                     if r is not None:
                         return r
+        # method of a NamedTuple built here
+        if is_t(obj, "tuple") and obj in _NT_CLASS:
+            cis = ev.prog.class_index.get(_NT_CLASS[obj][0])
+            if cis and name in cis[0].methods:
+                ci = cis[0]
+                r = self.inline(Closure(ci.methods[name], {}, ci.module, ci, f"{ci.name}.{name}"), [obj] + list(args), kwargs)
+                if r is not None:
+                    return r
         # accessor on a locally constructed repository object: VmapTrace(...).get_retval()
         if is_t(obj, "ctor") and name.startswith("get_"):
             cis = ev.prog.class_index.get(obj[1])
@@ -1739,6 +1809,17 @@ class _Ctx:
             cis = ev.prog.class_index.get(short)
             if cis:
                 ci = cis[0]
+                if short == "Diff" and name not in _TREE_TAGS and name in ev.tag_helpers():
+                    fn = ev.tag_helpers()[name]
+                    b = _bind_simple(fn, args, kwargs)
+                    if b is not None:
+                        if ev.inline_tag_helpers:
+                            r = self.inline(Closure(fn, {}, ci.module, ci, f"Diff.{name}"), list(args), kwargs)
+                            if r is not None:
+                                return r
+                        r = _const_tag_call(obj, b[0], b[1])
+                        if r is not None:
+                            return r
                 if name in ci.methods and not (short == "Diff" and name in _TREE_TAGS) and ((short, name) in _INLINE_STATIC or (name not in ev.opaque_methods and _thin_forwarder(ci.methods[name], short)) or (
                         name.startswith("_") and not name.startswith("__") and name not in ev.opaque_methods and _is_static(ci.methods[name])
                         and (_pure_wiring(ci.methods[name]) or (ev.inline_private_static and not _is_opaque_fn(ci.methods[name]) and not _numeric_kernel(ci.methods[name]))))):
@@ -1935,6 +2016,32 @@ def _numeric_kernel(fn) -> bool:
             if d.split(".")[0] in ("jnp", "np") or d.startswith("jax.numpy.") or d.startswith("jax.lax.") or d.startswith("lax."):
                 return True
     return False
+
+
+def _bind_simple(fn, args, kwargs):
+    """positional values of a call to a function with plain positional parameters only (None when not all are given)"""
+    names = [a.arg for a in fn.args.args]
+    if any(is_t(a, "star") for a in args) or len(args) > len(names):
+        return None
+    vals = dict(zip(names, args))
+    for k, v in (kwargs.items() if isinstance(kwargs, dict) else kwargs):
+        if k not in names or k in vals:
+            return None
+        vals[k] = v
+    return [vals[n] for n in names] if len(vals) == len(names) else None
+
+
+def _const_tag_call(diffg, x, T):
+    """Diff.<tag helper>(x, T) for a decided T: the API call it stands for"""
+    if is_t(T, "global") and T[1].split(".")[-1] == "NoChange":
+        return ("call", ("attr", diffg, "no_change"), (x,), ())
+    if is_t(T, "global") and T[1].split(".")[-1] == "UnknownChange":
+        return ("call", ("attr", diffg, "unknown_change"), (x,), ())
+    if is_t(T, "phi"):
+        a, b = _const_tag_call(diffg, x, T[2]), _const_tag_call(diffg, x, T[3])
+        if a is not None and b is not None:
+            return mk_phi(T[1], a, b)
+    return None
 
 
 def _thin_forwarder(fn, cls_name) -> bool:
